@@ -1,7 +1,55 @@
-(* C19 -- placeholder until the session theorems for this property are in place *)
-From SF Require Import Session Session_proofs Session_c07.
-Theorem C19_pre_logon_frame : forall cfg s o s' os,
-    not_logged s -> pools_ok s -> not_app_send o -> step cfg s o = (s', os) ->
-    Forall post_logon_types (wire_types os).
-Proof. exact logon_step_wires. Qed.
-Print Assumptions C19_pre_logon_frame.
+(* C19 -- Messages are stored before sending; handlers run in order; a refusal stops it. *)
+From SF Require Import Bytes Values Wire Parse Session Session_proofs Session_clean Session_handlers.
+
+(* Session.send when nothing refuses: the calls (the Save under the message's own number among
+   them, all before the hand-off), then exactly one wire carrying the stamped message; the store
+   holds that message under that number afterwards and no other entry changed *)
+Theorem C19_store_before_send :
+  forall cfg s m, clean cfg s -> save_first s -> m_header m = tpl_Header ->
+    exists s' calls,
+      session_send cfg s m = (s', calls ++ [OWire (fst (prepare (stamped s m)))])
+      /\ Forall is_call calls /\ In (OSave (s_cnt_out s + 1) true) calls
+      /\ store_get (s_store s') (s_cnt_out s + 1) = Some (stamped s m)
+      /\ (forall k, k <> (s_cnt_out s + 1)%Z -> store_get (s_store s') k = store_get (s_store s) k)
+      /\ same_control s s' /\ s_cnt_out s' = (s_cnt_out s + 1)%Z /\ clean cfg s' /\ save_first s'.
+Proof. exact session_send_clean. Qed.
+Print Assumptions C19_store_before_send.
+
+(* whenever DefaultHandler.send reports failure nothing was transmitted and an error is returned *)
+Theorem C19_refusal_means_no_transmission :
+  forall cfg s m s' o, router_send cfg s m = (s', o, false) -> wires o = [] /\ In OSendErr o.
+Proof. exact router_send_refused. Qed.
+Print Assumptions C19_refusal_means_no_transmission.
+
+(* a failing save and a refusing handler each end the chain on the spot *)
+Theorem C19_failing_save_stops :
+  forall cfg s m hs, existsb (Nat.eqb (s_saves s)) (c_fail_saves cfg) = true ->
+    run_out_handlers cfg s m (OSaveH :: hs) =
+    (upd_store s (s_store s) (S (s_saves s)), [OSave (seq_of m) false], false, m).
+Proof. exact failing_save_stops. Qed.
+Print Assumptions C19_failing_save_stops.
+Theorem C19_refusing_handler_stops :
+  forall cfg s m id am hs,
+    run_out_handlers cfg s m (OApp id false am :: hs) = (s, [OAppOut id (seq_of m)], false, m).
+Proof. exact refusing_handler_stops. Qed.
+Print Assumptions C19_refusing_handler_stops.
+
+(* inbound: all-types handlers, then the handlers of the message's own type; within a pool
+   registration order, and a handler answering false ends that pool's round *)
+Theorem C19_dispatch :
+  forall cfg s d mt, value_by_tag d tag_MsgType = Ok mt ->
+    serve cfg s d =
+    (let '(s1, o1) := run_in_handlers cfg s (pool_get (s_in s) ALL) d in
+     let '(s2, o2) := run_in_handlers cfg s1 (pool_get (s_in s1) mt) d in
+     (s2, o1 ++ o2)).
+Proof. exact serve_dispatch. Qed.
+Print Assumptions C19_dispatch.
+Theorem C19_early_exit :
+  forall cfg s h hs d s1 o1,
+    run_in_handler cfg s h d = (s1, o1, false) -> run_in_handlers cfg s (h :: hs) d = (s1, o1).
+Proof. exact handlers_early_exit. Qed.
+Print Assumptions C19_early_exit.
+Theorem C19_registration_order :
+  forall (p : pool in_handler) k h, pool_get (pool_add p k h) k = pool_get p k ++ [h].
+Proof. intros. apply pool_registration_order. Qed.
+Print Assumptions C19_registration_order.
